@@ -31,6 +31,18 @@ matched atoms without radical electrons (RunReactants must raise, not return).
 Molecule presentations: aromatic compounds as parsed (aromatic bonds) and in
 Kekule form with the aromatic flags cleared are part of the molecule set of
 every unimolecular rule.
+Repeated labels (domains/w5_c16.py): several pattern atoms carry one label (as
+the hydrogens of the bundled patterns do) and the edits name that label.  The
+property does not say which carrier a repeated label names, so a rule is
+judged under every READING (one carrier per label) and a verdict is demanded
+only where all readings agree:
+  rep2  : every two-atom pattern with both atoms under one label, radical
+          edits on that label
+  rep3  : three-atom chains and stars over {C?, C., H}, the third atom
+          repeating the label of the first or of the second, full block-level
+          edit alphabet (thorough: + four-atom chains and stars over {C?, H})
+unbalanced under every reading => RINGReaderError; balanced under every
+reading => a rule whose product sets follow ONE reading on all molecules.
 """
 import itertools
 
@@ -39,6 +51,7 @@ from ..models import ringref, ruleref
 from ..domains import molecules as MD
 from ..domains import w3_c16 as W3
 from ..domains import w4_c16 as W4
+from ..domains import w5_c16 as W5
 
 LEVEL = 'exploration'
 ATOMS5 = ['C', 'C?', 'C.', 'H', 'O?']
@@ -74,7 +87,14 @@ BOUND = {
              'decrease order; second reactant behind C?-H] and the 6 x 6 pairs of a '
              '6-letter sub-alphabet as two one-atom reactants (+ form bond across); 9 '
              'molecules with carbons of 0..3 radical electrons (two reactants: 4 x 4 '
-             'pairs); 206 rule shapes',
+             'pairs); 206 rule shapes; repeated labels: the 58 two-atom patterns with '
+             'both atoms under one label x all sequences of length <= 3 over {radical '
+             '+1, -1, := 0, := 1} on it; 27 x 4 x 2 three-atom patterns ({C?, C., H}^3 x '
+             '{single, double}^2 x chain / star) x the 2 labellings in which the third '
+             'atom repeats the label of the first or of the second x all sequences of '
+             'length <= 2 over the full block-level alphabet (20 edits) and of length 3 '
+             'over the basic one (8 edits); 274 labelled patterns; same molecules as the '
+             'unimolecular family',
     'thorough': 'as quick with length-3 sequences over the full alphabet for '
                 '1-2 atom patterns, length 4 over the basic edits, triple bonds '
                 'and 4-atom chains; molecules M(3) C/O with radicals + 10; '
@@ -84,7 +104,13 @@ BOUND = {
                 'molecule presentations: 7 aromatic compounds x 2; declared radical '
                 'counts: n in 0..3 (44 declarations), 5 two-atom shapes, first '
                 'reactants C?-H and C., 14 molecules incl. [C] (two reactants: 5 x 5 '
-                'pairs), 388 rule shapes'}
+                'pairs), 388 rule shapes; repeated labels: as quick with triple bonds in '
+                'the two-atom patterns, + 16 x 6 four-atom single-bonded trees over '
+                '{C?, H} x every labelling with a repeated label that keeps `bond to` '
+                'unambiguous, sequences of length <= 2 over the basic block-level '
+                'alphabet and the radical edits of every label, length 3 over the '
+                'radical edits of the first repeated label; molecules of the thorough '
+                'unimolecular family'}
 RULE = ('every (pattern, edit sequence) is written as rule text and read; '
         'sequences that are well defined on the evolving pattern are judged: '
         'unbalanced => RINGReaderError, balanced => a rule; every rule that '
@@ -107,7 +133,14 @@ RULE = ('every (pattern, edit sequence) is written as rule text and read; '
         '(rule, molecules) case in which some reference match meets a radical '
         'decrease on an atom without radical electrons, or an order change of '
         'an aromatic bond, must end with an exception, otherwise with exactly '
-        'the reference product sets')
+        'the reference product sets.  Repeated labels: every (pattern, '
+        'labelling with a repeated label, edit sequence over the labels) is '
+        'analysed under every reading (one carrier atom per label); where '
+        'every reading is well defined and unbalanced the rule is read and '
+        'must be rejected; where every reading is well defined and balanced '
+        'it must be read, is run on every molecule, and the readings under '
+        'which the product sets equal the reference are intersected over the '
+        'molecules: the intersection must not become empty')
 ASSUMPTIONS = ['charge edits and atom-type edits are not judged (the balance '
                'clause speaks of bond and radical edits)',
                'radical := n is judged on atoms whose pattern fixes the radical '
@@ -143,7 +176,16 @@ ASSUMPTIONS = ['charge edits and atom-type edits are not judged (the balance '
                'returned result is not',
                'Kekule presentations are made by RDKit (Kekulize with '
                'clearAromaticFlags); products of unsanitised fragments are compared '
-               'as they are, without re-perceiving aromaticity']
+               'as they are, without re-perceiving aromaticity',
+               'repeated labels are legal (the bundled patterns use them); in an '
+               'edit a repeated label names ONE of its carriers, the same one in '
+               'every edit of the rule, the property does not say which: rules on '
+               'which the readings disagree (ill defined or a documented refusal '
+               'under some reading, or balanced under one and unbalanced under '
+               'another) are enumerated but not judged; labellings in which a '
+               '`bond to <label>` of the pattern could name two earlier atoms are '
+               'not enumerated; a rule whose label pair names one block twice '
+               '(bond edit between a label and itself) is not enumerated']
 MANIFEST = dict(
     technique='bounded-exhaustive enumeration of rule programs x small '
               'molecules vs own electron bookkeeping and edit applier',
@@ -165,7 +207,11 @@ MANIFEST = dict(
          '`has <op> n radical electrons` constraint in one- and two-atom rules and '
          'as second reactant, with radical := n required to be rejected where the '
          'pattern admits several counts and a radical decrease on a matched atom '
-         'without radical electrons required to raise; charge '
+         'without radical electrons required to raise; patterns in which two '
+         'atoms share a label (two-atom patterns under one label; three-atom '
+         'chains and stars whose third atom repeats an earlier label) with the '
+         'edits naming the shared label, judged where every reading of the '
+         'label agrees; charge '
          'and atom-type edits are outside the bound.',
     ref='5/C16')
 
@@ -710,6 +756,135 @@ def run_rad_shard(R, shard, tier):
                       if fam != 'rad1' else None)
 
 
+# ------------------------------------------- repeated labels (wave 5)
+#
+# domains/w5_c16.py: several pattern atoms under one label, edits that name
+# the label.  Judged under every reading (one carrier per label); see the
+# module docstring there.
+
+def rep_patterns(shard, tier):
+    """-> list of (atoms, labs) of the shard"""
+    out = []
+    if shard[1] == 'two':
+        for atoms in patterns(tier):
+            if len(atoms) == 2:
+                out.append((atoms, ['a0', 'a0']))
+        return out
+    for atoms in W5.rep3_structures(tier)[shard[2]]:
+        for labs in W5.labellings(atoms):
+            out.append((atoms, labs))
+    return out
+
+
+def rep_shards(tier):
+    return [('rep', 'two', 0)] + [('rep', 'tree', i)
+                                  for i in range(len(W5.rep3_structures(tier)))]
+
+
+def judge_rep(R, atoms, labs, seq, tier, mols=None):
+    from rdkit import Chem
+    from pgradd.RINGParser import Read
+    from pgradd.Error import RINGReaderError
+    rhos = W5.readings(labs)
+    R.evals += 1
+    seqs = [W5.resolve(seq, rho) for rho in rhos]
+    verdicts = [ruleref.analyse(atoms, s) for s in seqs]
+    if any(st != 'judged' for st, _ in verdicts):
+        R.outcomes['rep:unjudged(ill defined or refusal under some reading)'] += 1
+        return
+    if len(set(b for _, b in verdicts)) > 1:
+        R.outcomes['rep:unjudged(readings disagree on the balance)'] += 1
+        return
+    balanced = verdicts[0][1]
+    text = W5.rule_text(atoms, labs, seq)
+    wit = dict(kind='rep', atoms=[list(a) if a[1] is None else [a[0], list(a[1])]
+                                  for a in atoms], labs=list(labs),
+               seq=[list(e) for e in seq], tier=tier, smiles=None)
+    try:
+        q = Read(text)
+        got = 'rule'
+    except RINGReaderError:
+        got = 'RINGReaderError'
+    except Exception as e:      # noqa
+        got = 'EXC:' + type(e).__name__
+    R.nontrivial += 1
+    sig = ','.join(sorted(set(e[0] for e in seq)))
+    if not balanced:
+        R.outcomes['rep:unbalanced(every reading):' + got] += 1
+        if got != 'RINGReaderError':
+            R.violation('rep-read:unbalanced-%s:%s' % (
+                'accepted' if got == 'rule' else got, sig),
+                '%r leaves an atom\'s electrons unbalanced whichever atom a repeated '
+                'label names; Read gave %s' % (text, got), wit)
+        return
+    R.outcomes['rep:balanced(every reading):' + got] += 1
+    if got != 'rule':
+        R.violation('rep-read:balanced-%s:%s' % (got, sig),
+                    '%r is balanced whichever atom a repeated label names; Read gave %s'
+                    % (text, got), wit)
+        return
+    fr = ringref.parse_fragment(ruleref.fragment_text(atoms))
+    alive = list(range(len(rhos)))
+    for smi, m, mh, g in (mols or molset(tier)):
+        matches = ringref.ref_matches_g(fr, g)
+        exps = []
+        for s in seqs:
+            if any(W4.inapplicable(mh, mt, s) for mt in matches):
+                exps.append(None)
+            else:
+                exps.append(sorted(ruleref.apply_edits(mh, mt, s) for mt in matches))
+        R.evals += 1
+        if matches:
+            R.nontrivial += 1
+        cons = True
+        try:
+            arg = Chem.Mol(m)
+            before = (arg.GetNumAtoms(), Chem.MolToSmiles(arg))
+            res = q.RunReactants(arg)
+            if (arg.GetNumAtoms(), Chem.MolToSmiles(arg)) != before:
+                R.violation('rep-run:callers-molecule-modified:' + sig,
+                            '%r on %s: the molecule object passed in was modified' % (text, smi),
+                            dict(wit, smiles=smi))
+            gotp = sorted(ruleref.product_key(ps) for ps in res)
+            cons = all(ruleref.element_counts(ps) == ruleref.element_counts([mh])
+                       for ps in res)
+        except Exception as e:     # noqa
+            gotp = 'EXC:%s' % type(e).__name__
+        if not cons:
+            R.violation('rep-run:atoms-not-conserved:' + sig,
+                        '%r on %s: a product set does not conserve the atoms'
+                        % (text, smi), dict(wit, smiles=smi))
+        ok = [r for r in alive if (isinstance(gotp, str) if exps[r] is None
+                                   else gotp == exps[r])]
+        if ok:
+            alive = ok
+            R.outcomes['rep-run:same:%s' % ('products' if matches else 'no-match')] += 1
+            if matches and len(set(map(repr, exps))) > 1:
+                R.sample(dict(rule=text, molecule=smi, reading=list(rhos[alive[0]]),
+                              product_sets=(exps[alive[0]] or [])[:1]), limit=2)
+            continue
+        exp0 = exps[alive[0]]
+        cls = gotp if isinstance(gotp, str) else (
+            'inapplicable-edit-returned' if exp0 is None else
+            'count' if len(gotp) != len(exp0) else 'products')
+        R.outcomes['rep-run:differs:' + cls] += 1
+        R.violation('rep-run:%s:%s' % (cls, sig),
+                    '%r on %s: %d reference matches; under no reading of the repeated '
+                    'label that fits the molecules before (readings left: %r) do the '
+                    'product sets equal the reference %r; implementation -> %r'
+                    % (text, smi, len(matches), [list(rhos[r]) for r in alive],
+                       [None if exps[r] is None else exps[r][:2] for r in alive],
+                       gotp if isinstance(gotp, str) else gotp[:3]),
+                    dict(wit, smiles=smi))
+        return
+
+
+def run_rep_shard(R, shard, tier):
+    for atoms, labs in rep_patterns(shard, tier):
+        for seq in W5.rep_sequences(atoms, labs, tier):
+            judge_rep(R, atoms, labs, seq, tier)
+
+
 def multi_cases(shard, tier):
     """-> (fam, molecule alphabet, longest unbalanced sequence that is read,
     reactant patterns, name tuples, edit sequences); the cases of the shard
@@ -749,11 +924,15 @@ def shards(tier, seed):
                                      range(len(W3.T_R3))):
         out.append(('tri', i, j, k))
     out += W4.rad_shards(tier)
+    out += rep_shards(tier)
     return out
 
 
 def run_shard(shard, tier):
     R = Result()
+    if shard[0] == 'rep':
+        run_rep_shard(R, shard, tier)
+        return R
     if shard[0] in ('rad1', 'rad2', 'radb'):
         run_rad_shard(R, shard, tier)
         return R
@@ -792,6 +971,13 @@ def run_shard(shard, tier):
 def replay(w):
     from rdkit import Chem
     R = Result()
+    if w['kind'] == 'rep':
+        # the whole molecule set is run again: the readings that fit are
+        # intersected over the molecules (witness['smiles'] = where it emptied)
+        atoms = [(a[0], None if a[1] is None else (a[1][0], a[1][1])) for a in w['atoms']]
+        judge_rep(R, atoms, list(w['labs']), [tuple(e) for e in w['seq']], w.get('tier') or 'quick')
+        return dict(violates=bool(R.violations),
+                    detail='\n'.join(v['msg'] for v in R.violations) or 'holds')
     if w['kind'] == 'rad':
         fam = w['fam']
         judge_rad(R, fam, [W4.dec_pat(p) for p in w['pats']], [tuple(e) for e in w['seq']],
